@@ -238,6 +238,26 @@ pub fn configs(tier: Tier) -> Vec<CfgD> {
         c.default_dims = dimsets[2].clone();
         out.push(c);
     }
+    // configuration strings that need escaping, in every position where the formatter
+    // pre-computes text from them (first namespace, later namespaces, dimension names)
+    let nasty_ns = s("N\"\\\u{1}\u{e9}\u{10000}");
+    let nasty_dim = s("A\"\\\u{e9}");
+    {
+        let mut c = plain(Ctor::Builder);
+        c.namespaces = vec![nasty_ns.clone(), s("NS")];
+        out.push(c);
+        let mut c = plain(Ctor::BuilderSkipTrue);
+        c.namespaces = vec![nasty_ns.clone(), s("N\"2"), s("NS3")];
+        c.default_dims = vec![vec![nasty_dim.clone()], vec![nasty_dim.clone(), s("B")]];
+        c.mult = Mult::None;
+        out.push(c);
+        for ctor in [Ctor::AllValidations, Ctor::NoValidations] {
+            let mut c = plain(ctor);
+            c.namespaces = vec![nasty_ns.clone()];
+            c.default_dims = vec![vec![], vec![nasty_dim.clone()]];
+            out.push(c);
+        }
+    }
     // sampling multiplicities
     let n = out.len();
     let mults: &[Mult] = match tier {
